@@ -1,6 +1,6 @@
 (* Entry points of the correspondence check: one function per harness command, from the parsed
    command to the answer string.  Evaluated by the extracted `modelrun` and by vm_compute. *)
-From H264 Require Import Base.Prelude Base.Bits Model.Show Model.BitReader Model.RefNal Model.Rbsp Model.Nal.
+From H264 Require Import Base.Prelude Base.Bits Model.Show Model.BitReader Model.RefNal Model.Rbsp Model.Nal Model.AnnexB Model.Accum.
 Local Open Scope string_scope.
 
 Inductive source := SrcRaw (b : list byte) | SrcNal (c : bool) (chunks : list (list byte)).
@@ -96,27 +96,31 @@ Definition show_term (t : term) : string :=
   | TermEof => "" | TermErr k => "!" ++ show_iokind k | TermPanic _ => "!PANIC" | TermFuel => "!FUEL"
   end.
 
-Fixpoint run_rbsp_ops (ops : list byteop) (r : br) : list string :=
+(* `avail`: bytes returned by the last fill_buf and not consumed since; BoConsume k consumes
+   min k avail, which keeps every script inside BufRead::consume's precondition *)
+Fixpoint run_rbsp_ops (ops : list byteop) (r : br) (avail : nat) : list string :=
   match ops with
   | [] => []
   | op :: rest =>
     match op with
     | BoFill => let '(x, r') := br_fill_buf r in
-                show_ioout (fun b => "f:" ++ hex b) x :: (if is_panic x then [] else run_rbsp_ops rest r')
+                let avail' := match x with OK b => length b | _ => 0%nat end in
+                show_ioout (fun b => "f:" ++ hex b) x :: (if is_panic x then [] else run_rbsp_ops rest r' avail')
     | BoRead n => let '(x, r') := br_read r n in
-                  show_ioout (fun b => "r:" ++ hex b) x :: (if is_panic x then [] else run_rbsp_ops rest r')
-    | BoConsume k => match br_consume r k with
-                     | OK r' => "c" :: run_rbsp_ops rest r'
+                  show_ioout (fun b => "r:" ++ hex b) x :: (if is_panic x then [] else run_rbsp_ops rest r' 0%nat)
+    | BoConsume k => let k' := Nat.min k avail in
+                     match br_consume r k' with
+                     | OK r' => ("c" ++ show_nat k') :: run_rbsp_ops rest r' (avail - k')%nat
                      | _ => ["PANIC"]
                      end
     | BoEnd => let '(acc, t, r') := br_drain r in
-               ("e:" ++ hex acc ++ show_term t) :: run_rbsp_ops rest r'
+               ("e:" ++ hex acc ++ show_term t) :: run_rbsp_ops rest r' 0%nat
     | BoClone => ["?"]
     end
   end.
 
 Definition cmd_rbsp (s : source) (skip max_fill : N) (ops : list byteop) : string :=
-  join " " (run_rbsp_ops ops (br_new (rdr_of_source s) skip (if (max_fill =? 0)%N then 128%N else max_fill))).
+  join " " (run_rbsp_ops ops (br_new (rdr_of_source s) skip (if (max_fill =? 0)%N then 128%N else max_fill)) 0%nat).
 
 Definition cmd_decode_nal (nal : list byte) : string :=
   match decode_nal nal with
@@ -193,3 +197,26 @@ Definition show_header (s : source) : string :=
 
 Definition cmd_refnal (s : source) (ops : list byteop) : string :=
   join " " (show_header s :: run_refnal_ops ops [rdr_of_source s]).
+
+(* ---- annexb: the raw call trace, "|" after every operation ---- *)
+Definition show_call (c : call) : string :=
+  join "/" (map hex (bufs c)) ++ ";" ++ show_bit (fin c).
+
+Definition cmd_annexb (ops : list aop) : string :=
+  join " " (flat_map (fun cs => (map show_call cs ++ ["|"])%list) (run_ops AStart ops)).
+
+(* ---- accum ---- *)
+Definition show_invocation (i : invocation) : string :=
+  let r := rdr_of_nal (hd [] (inv_chunks i)) (tl (inv_chunks i)) (inv_complete i) in
+  let '(bytes, e, _) := rdr_drain r [] in
+  let hdr := match inv_bytes i with
+             | b :: _ => match nal_header_new b with
+                         | Some h => show_N (nal_ref_idc h) ++ "." ++ show_N (nal_unit_type_id h)
+                         | None => "err"
+                         end
+             | [] => "PANIC"
+             end in
+  hex bytes ++ ";" ++ show_bit (inv_complete i) ++ ";" ++ e ++ ";" ++ hdr.
+
+Definition cmd_accum (frs : list (list (list byte) * bool)) (pol : list interest) : string :=
+  join " " (map show_invocation (run_fragments acc_init pol frs)).
